@@ -4,6 +4,6 @@ p=$1; shift
 d=$(mktemp -d /tmp/peek.XXXXXX)
 mkdir -p $d && cp -r /repo/src $d/src && (cd $d && patch -s -p1 < "$p") || { echo "patch failed"; rm -rf $d; exit 2; }
 for id in "$@"; do
-  VERIF_REPO=$d /verif/check $id --no-write 2>&1 | grep -E "^\S+:[0-9]+: \[|ANALYSIS-ERROR|^C[0-9][0-9] \[" | cut -c1-260
+  VERIF_REPO=$d /verif/check $id --no-write 2>&1 | grep -a -E "^\S+:[0-9]+: \[|ANALYSIS-ERROR|^C[0-9][0-9] \[" | cut -c1-260
 done
 rm -rf $d
